@@ -202,3 +202,218 @@ Theorem C07_bytes_hypothesis_needed :
   ~ wbytes not_bytes /\ fst (run_ops [OOpen; ORead 0 4] (ctl_init, not_bytes)) = [KOk; KPanic].
 Proof. exact wbytes_needed. Qed.
 Print Assumptions C07_bytes_hypothesis_needed.
+
+(* ================================================================================================================
+   USB layer: device enumeration and descriptor parsing of device/src/u3v/device_builder.rs (+ device_info.rs),
+   for ALL device lists, descriptor trees, raw "extra" byte strings, string tables and libusb results.
+   Model: model/UsbEnum.v (code after fix b32619b; [..._v0]: the pinned code); specification of the descriptor
+   layouts, the search order and the accept decision: spec/UsbDescLayout.v; proofs: proofs/P_C07u.v.
+   ================================================================================================================ *)
+From Cam Require Import UsbEnum UsbDescLayout P_C07u.
+
+(* Iad::from_bytes is total: no byte string makes it panic or index out of bounds *)
+Theorem C07_usb_iad_total : forall bs, iad_from_bytes bs <> Panic.
+Proof. exact iad_from_bytes_total. Qed.
+Print Assumptions C07_usb_iad_total.
+
+(* b32619b: the pinned code indexed bytes[read + 1] and bytes[read + 2 ..= read + 7] unchecked: extra bytes that end
+   inside a descriptor header ([05]), inside an IAD ([05 0B]) or inside an IAD after a well-formed descriptor panicked *)
+Theorem C07_usb_iad_v0_refuted :
+  iad_from_bytes_v0 [5] = Panic /\ iad_from_bytes_v0 [5; 11] = Panic /\
+  iad_from_bytes_v0 [3; 48; 0; 8; 11; 0; 2; 239; 5; 0] = Panic /\
+  iad_from_bytes [5] = Ok None /\ iad_from_bytes [5; 11] = Ok None /\
+  iad_from_bytes [3; 48; 0; 8; 11; 0; 2; 239; 5; 0] = Ok None.
+Proof. exact iad_v0_refuted. Qed.
+Print Assumptions C07_usb_iad_v0_refuted.
+
+(* ... and one such device made enumerate_devices panic, hiding the healthy cameras next to it; the repaired code
+   returns exactly the two healthy ones *)
+Theorem C07_usb_enumerate_v0_refuted :
+  fst (enumerate_devices_v0 3 [ex_good; ex_cut; ex_good]) = Panic /\
+  run_enum_v0 3 [ex_good; ex_cut; ex_good] = [2] /\
+  map fst (accepted_from 0 [ex_good; ex_cut; ex_good]) = [0; 2] /\
+  exists l, fst (enumerate_devices 3 [ex_good; ex_cut; ex_good]) = Ok l /\ map fst l = [0; 2].
+Proof. exact enumerate_v0_refuted. Qed.
+Print Assumptions C07_usb_enumerate_v0_refuted.
+
+(* what Iad::from_bytes returns is a descriptor of type 0x0B lying completely inside the bytes, decoded at the
+   offsets of USB 3.x 9.6.4 (bLength, bDescriptorType, bFirstInterface, bInterfaceCount, bFunctionClass,
+   bFunctionSubClass, bFunctionProtocol, iFunction) *)
+Theorem C07_usb_iad_at_offsets : forall bs i, iad_from_bytes bs = Ok (Some i) ->
+  exists p, (p + 8 <= length bs)%nat /\ i = spec_iad_at bs p /\ i_type i = 0x0B.
+Proof. exact iad_found_at_offsets. Qed.
+Print Assumptions C07_usb_iad_at_offsets.
+
+(* round trip over well-formed chains: after any descriptors that are not IADs, the first IAD is found and decoded
+   to exactly its fields -- with anything after it, or at the very end of the extra bytes (rest = []) *)
+Theorem C07_usb_iad_roundtrip : forall pre d rest, Forall not_iad_desc pre ->
+  iad_from_bytes (enc_chain pre ++ encode_iad d ++ rest) = Ok (Some (iad_of_siad d)).
+Proof. exact iad_roundtrip. Qed.
+Print Assumptions C07_usb_iad_roundtrip.
+
+Theorem C07_usb_iad_none_without_iad : forall pre, Forall not_iad_desc pre ->
+  iad_from_bytes (enc_chain pre) = Ok None.
+Proof. exact iad_none_without_iad. Qed.
+Print Assumptions C07_usb_iad_none_without_iad.
+
+(* the search order inside a configuration: the configuration's extra bytes, then per interface and alternate
+   setting the interface's extra bytes followed by those of its endpoints; the result is the first of these byte
+   strings whose first IAD is a USB3 Vision function *)
+Theorem C07_usb_search_order : forall c,
+  find_in_config iad_from_bytes c = first_u3v iad_from_bytes (extras_in_order c) /\
+  find_in_config iad_from_bytes c = Ok (spec_find_config c).
+Proof. exact search_order_both. Qed.
+Print Assumptions C07_usb_search_order.
+
+(* the FIRST U3V IAD in that order is found: when every earlier extra is a well-formed chain without an IAD and
+   this one is a well-formed chain, then the IAD of a U3V function (class EF/05/00), then anything *)
+Theorem C07_usb_search_finds_first : forall c before x after pre d rest,
+  extras_in_order c = before ++ x :: after ->
+  Forall (fun y => exists p, Forall not_iad_desc p /\ y = enc_chain p) before ->
+  x = enc_chain pre ++ encode_iad d ++ rest -> Forall not_iad_desc pre ->
+  bFunctionClass d = 0xEF -> bFunctionSubClass d = 0x05 -> bFunctionProtocol d = 0x00 ->
+  find_in_config iad_from_bytes c = Ok (Some (iad_of_siad d)).
+Proof. exact search_finds_first. Qed.
+Print Assumptions C07_usb_search_finds_first.
+
+(* DeviceInfoDescriptor::from_bytes, for ALL byte strings: InvalidDevice unless there are 20 bytes, bLength >= 20,
+   type 0x24, subtype 0x01; then exactly the fields at the offsets of the USB3 Vision device info descriptor
+   (GenCP version: minor at 3, major at 5; U3V version: minor at 7, major at 9; string indices at 11..18; speed
+   mask at 19), whatever follows.  Never a panic, never a buffer error. *)
+Theorem C07_usb_info_spec : forall bs,
+  info_from_bytes bs = if spec_info_valid bs then Ok (spec_info bs) else Err UE_INVALID_DEVICE.
+Proof. exact info_from_bytes_spec. Qed.
+Print Assumptions C07_usb_info_spec.
+
+(* decode (encode d) = d for every device info record (32-bit version fields), with any trailing bytes *)
+Theorem C07_usb_info_roundtrip : forall d tail, sinfo_ok d ->
+  info_from_bytes (encode_info d ++ tail) = Ok (idesc_of_sinfo d).
+Proof. exact info_roundtrip. Qed.
+Print Assumptions C07_usb_info_roundtrip.
+
+(* speed = the highest set bit of bmSpeedSupport among bits 0..4 (4 SuperSpeedPlus .. 0 LowSpeed); no such bit:
+   InvalidDevice; bits 5..7 are ignored *)
+Theorem C07_usb_speed : forall m,
+  speed_of m = match spec_speed m with Some k => Ok k | None => Err UE_INVALID_DEVICE end.
+Proof. exact speed_of_spec. Qed.
+Print Assumptions C07_usb_speed.
+
+Theorem C07_usb_speed_highest_bit : forall m k, speed_of m = Ok k ->
+  0 <= k <= 4 /\ Z.testbit m k = true /\ forall j, k < j <= 4 -> Z.testbit m j = false.
+Proof. exact speed_highest_bit. Qed.
+Print Assumptions C07_usb_speed_highest_bit.
+
+(* DeviceInfoDescriptor::interpret: Ok exactly when every mandatory string and every optional string with a non-zero
+   index can be read and a speed bit is set; the DeviceInfo then holds the table's strings at the descriptor's indices *)
+Theorem C07_usb_interpret : forall di d x,
+  match spec_dinfo d x with
+  | Some info => fst (interpret di d x) = Ok info
+  | None => exists e, fst (interpret di d x) = Err e
+  end.
+Proof. exact interpret_spec. Qed.
+Print Assumptions C07_usb_interpret.
+
+(* ... optional strings are absent iff their index is 0 *)
+Theorem C07_usb_info_fields : forall d x info, spec_dinfo d x = Some info ->
+  di_gencp info = (id_gencp_major x, id_gencp_minor x) /\ di_u3v info = (id_u3v_major x, id_u3v_minor x) /\
+  spec_string d (id_guid x) = Some (di_guid info) /\ spec_string d (id_vendor x) = Some (di_vendor info) /\
+  spec_string d (id_model x) = Some (di_model info) /\ spec_string d (id_version x) = Some (di_version info) /\
+  spec_string d (id_manufacturer x) = Some (di_manufacturer info) /\ spec_string d (id_serial x) = Some (di_serial info) /\
+  (di_family info = None <-> id_family x = 0) /\ (di_user info = None <-> id_user x = 0) /\
+  (forall s, di_family info = Some s -> spec_string d (id_family x) = Some s) /\
+  (forall s, di_user info = Some s -> spec_string d (id_user x) = Some s) /\
+  spec_speed (id_speed x) = Some (di_speed info).
+Proof. exact spec_dinfo_fields. Qed.
+Print Assumptions C07_usb_info_fields.
+
+(* interface classification as closed forms: the control interface (first alternate setting EF/05/00 with exactly
+   one bulk IN and one bulk OUT endpoint, either order), a receive interface (first alternate setting numbered 0 is
+   EF/05, protocol 1 event / 2 stream, exactly one endpoint, bulk IN; never a panic at the unwrap), and the
+   (event, stream) pair: at most one of each, in either order *)
+Theorem C07_usb_interfaces : forall i rs,
+  match spec_ctrl i with Some c => control_iface_info i = Ok c | None => exists e, control_iface_info i = Err e end /\
+  recv_info i = Ok (spec_recv i) /\
+  match spec_classify rs with Some p => classify rs = Ok p | None => exists e, classify rs = Err e end.
+Proof. exact interfaces_spec. Qed.
+Print Assumptions C07_usb_interfaces.
+
+(* THE DECISION: one device of the list is kept exactly when the closed-form predicate accept_spec of its
+   descriptor tree and libusb answers says so (descriptor readable, class EF/02/01, a configuration with a U3V IAD
+   all earlier ones being readable, open / get_configuration succeed, the configuration is active or can be set,
+   the interface numbered bFirstInterface exists and has the control shape, a valid device info descriptor whose
+   strings can be read, a speed bit, at most one event and one stream interface after it) -- with exactly the
+   record accept_spec computes; never a panic, never an error *)
+Theorem C07_usb_device_decision : forall di d, fst (enum_device iad_from_bytes di d) = Ok (accept_spec d).
+Proof. exact enum_device_spec. Qed.
+Print Assumptions C07_usb_device_decision.
+
+(* enumerate_devices: fails only when libusb_get_device_list fails; otherwise the result is the sub-list of the
+   accepted devices, in list order, each with its own record -- one broken or hostile device neither makes the
+   enumeration fail nor hides or changes another device *)
+Theorem C07_usb_enumerate : forall list_code ds,
+  fst (enumerate_devices list_code ds) =
+  if list_code <? 0 then Err (usb_kind list_code) else Ok (accepted_from 0 ds).
+Proof. exact enumerate_spec. Qed.
+Print Assumptions C07_usb_enumerate.
+
+Theorem C07_usb_enumerate_total : forall list_code ds,
+  fst (enumerate_devices list_code ds) <> Panic /\ run_enum list_code ds <> [2].
+Proof. exact enumerate_total_both. Qed.
+Print Assumptions C07_usb_enumerate_total.
+
+(* membership: position k is reported with record r iff the k-th device of the list is accepted with r; positions
+   are strictly increasing; the decision distributes over concatenation of lists (independence of the devices) *)
+Theorem C07_usb_enumerate_members : forall ds k r,
+  In (k, r) (accepted_from 0 ds) <->
+  exists j, k = 0 + Z.of_nat j /\ exists d, nth_error ds j = Some d /\ accept_spec d = Some r.
+Proof. exact enumerate_members. Qed.
+Print Assumptions C07_usb_enumerate_members.
+
+Theorem C07_usb_enumerate_order : forall ds a b,
+  Sorted.StronglySorted Z.lt (map fst (accepted_from 0 ds)) /\
+  accepted_from 0 (a ++ b) = accepted_from 0 a ++ accepted_from (0 + Z.of_nat (length a)) b.
+Proof. exact enumerate_order. Qed.
+Print Assumptions C07_usb_enumerate_order.
+
+(* libusb usage: a device that is not a candidate (descriptor unreadable or not class EF/02/01) is asked for its
+   device descriptor and nothing else -- never opened, never configured; a device that is built is opened once and
+   the handle is closed after everything else on every way out; a failing get_device_list touches no device *)
+Theorem C07_usb_calls : forall di d x c list_code ds,
+  (candidate d = false -> enum_device iad_from_bytes di d = (Ok None, [1; di])) /\
+  snd (build di d x c) = [3; di] ++ (if d_open d =? 0 then snd (build_opened di d x c) ++ [7; di] else []) /\
+  (list_code < 0 -> enumerate_devices list_code ds = (Err (usb_kind list_code), [13])).
+Proof. exact enumerate_calls. Qed.
+Print Assumptions C07_usb_calls.
+
+(* what an accepted device is, read off its tree; its control endpoints have the directions rusb insists on (IN bit
+   set / clear), its receive endpoints are IN *)
+Theorem C07_usb_accepted_shape : forall d r, accept_spec d = Some r ->
+  candidate d = true /\
+  exists x c ctrl others,
+    spec_pick_config (d_confs d) (Z.to_nat (d_nconf d)) 0 = Some (x, c) /\ is_u3v_iad x = true /\
+    d_open d = 0 /\ d_getcfg_code d = 0 /\ (d_getcfg_val d mod 256 = cf_value c \/ d_setcfg d = 0) /\
+    skip_to (i_first x) (cf_ifaces c) = ctrl :: others /\
+    spec_ctrl ctrl = Some (r_ctrl r) /\
+    spec_info_valid (a_extra (if_first ctrl)) = true /\
+    spec_dinfo d (spec_info (a_extra (if_first ctrl))) = Some (r_info r) /\
+    spec_classify (filter_map spec_recv others) = Some (r_event r, r_stream r).
+Proof. exact accepted_shape. Qed.
+Print Assumptions C07_usb_accepted_shape.
+
+Theorem C07_usb_accepted_endpoints : forall d r, accept_spec d = Some r ->
+  (let '(n, a, b) := r_ctrl r in Z.land a 0x80 <> 0 /\ Z.land b 0x80 = 0) /\
+  (forall n a, r_event r = Some (n, a) -> Z.land a 0x80 <> 0) /\
+  (forall n a, r_stream r = Some (n, a) -> Z.land a 0x80 <> 0).
+Proof. exact accepted_endpoints. Qed.
+Print Assumptions C07_usb_accepted_endpoints.
+
+(* non-vacuity: a camera (control + event + stream interface, a SuperSpeed companion descriptor in an endpoint's
+   extra bytes, optional family name absent, user name present) is accepted with the expected record; the same
+   camera with the IAD cut short, and a hub, are left out *)
+Theorem C07_usb_example :
+  accept_spec ex_good =
+    Some (mkDevres (mkDinfo (1, 2) (1, 0) [71; 85] [86] [77] None [49] [] [83; 78] (Some [117]) 3)
+                   (0, 129, 1) (Some (1, 130)) (Some (2, 131))) /\
+  accept_spec ex_cut = None /\ accept_spec ex_hub = None.
+Proof. exact example_camera. Qed.
+Print Assumptions C07_usb_example.
